@@ -811,7 +811,7 @@ struct SetSys {
         case ins_hint_r: return cat("insert(begin+", a.a, ", && ", a.b, ")");
         case emplace_hint_k: return cat("emplace_hint(begin+", a.a, ", ", a.b, ")");
         case ins_range: return cat("insert(first,last over ", sq(a.a), ")");
-        case erase_key: return cat("erase(key ", a.a, ")");
+        case erase_key: return a.b ? cat("erase(*find(", a.a, ")) [reference to the stored key]") : cat("erase(key ", a.a, ")");
         case erase_it: return cat("erase(begin+", a.a, ")");
         case erase_cit: return cat("erase(cbegin+", a.a, ")");
         case erase_range: return cat("erase(begin+", a.a, ", begin+", a.b, ")");
@@ -873,7 +873,12 @@ struct SetSys {
                 for (int form = 0; form < 4; ++form) { out.push_back({full_probe, k, form, 0}); }
             }
         }
-        for (int k = 0; k <= K + 1; ++k) { out.push_back({erase_key, k, 0, 0}); }
+        for (int k = 0; k <= K + 1; ++k) {
+            out.push_back({erase_key, k, 0, 0});
+            // the key is a REFERENCE to the stored element: s.erase(*it) (added after seeded breakage
+            // c09_erase_key_alias_loop: a loop re-read `key` after the first erase had shifted the elements)
+            out.push_back({erase_key, k, 1, 0});
+        }
         for (int p = 0; p < s; ++p) {
             out.push_back({erase_it, p, 0, 0});
             if constexpr (Flat) { out.push_back({erase_cit, p, 0, 0}); }
@@ -1102,7 +1107,17 @@ struct SetSys {
         case erase_key: {
             cls = key_class(m, a.a);
             T const x(a.a);
-            ri = long(v.erase(x));
+            if (a.b == 1) {
+                auto const it = v.find(x);
+                if (it != v.end()) {
+                    cls += "+own_element";
+                    ri = long(v.erase(*it)); // std::set::erase(*it) erases that one element
+                } else {
+                    ri = long(v.erase(x));
+                }
+            } else {
+                ri = long(v.erase(x));
+            }
             rm = long(m.erase(a.a));
             break;
         }
